@@ -274,6 +274,20 @@ def inputs_for(g: Grammar, rule: str, rnd: random.Random, n_sent=10, n_total=40,
         for s in sents[:4]:
             for i in range(len(s) + 1):
                 add(s[:i] + rnd.choice(WS5 + NEAR_WS) + s[i:])
+        # long gaps (8-24 characters: beyond any word-sized chunk), pure whitespace and with one near-whitespace character
+        # at every position of the run
+        for s in sents[:3]:
+            for _ in range(4):
+                i = rnd.randint(0, len(s))
+                n = rnd.randint(8, 24)
+                run = [rnd.choice(WS5) for _ in range(n)]
+                if rnd.random() < 0.7:
+                    run[rnd.randrange(n)] = rnd.choice(NEAR_WS)
+                x = s[:i] + "".join(run) + s[i:]
+                if x not in seen:
+                    seen.add(x)
+                    out.append(x)
+        n_total += 12
     # mutations
     tries = 0
     while len(out) < n_total and tries < n_total * 4:
@@ -314,7 +328,8 @@ def inputs_for(g: Grammar, rule: str, rnd: random.Random, n_sent=10, n_total=40,
             sep = rnd.choice(["", " ", "\n", " \n"])
             unit = s0 + sep
             z = unit * (target // max(1, len(unit.encode("utf-8"))) + 1)
-            for x in (z, z + rnd.choice(alpha) + "\x00"):
+            both = (z, z + rnd.choice(alpha) + "\x00")
+            for x in (both if target < 10000 else (rnd.choice(both),)):
                 if x not in seen:
                     seen.add(x)
                     out.append(x)
